@@ -101,6 +101,23 @@ def run(w, want_log=True):
     return m.show(want_log)
 
 
+def run_bystander(w):
+    """exec1 with another emulator constructed AFTER the one under test and before it executes (an instance that has nothing
+    to do with the run): process-wide registries must not make the result depend on it"""
+    addr, regs, mem, fill = setup(w)
+    n = int(w[5]) if len(w) > 5 else 1
+    m = Machine(mem, fill, regs)
+    other = Machine({0xFFFFD: 0xCD, 0xFFFFE: 0xAB, 0xFFFFF: 0x00, 0xFFFFA: 0x11, 0xFFFFB: 0x22, 0xFFFFC: 0x03}, 0, {"BA": 0x1234, "X": 0x2345})
+    try:
+        m.steps(addr, n)
+    except Exception as e:  # noqa: BLE001
+        return f"ERR {type(e).__name__}"
+    res = m.show(False)
+    g = other.emu.regs.get
+    touched = bool(other.writes) or g(RegisterName.PC) != 0 or g(RegisterName.BA) != 0x1234 or g(RegisterName.X) != 0x2345 or other.emu.state.halted
+    return res + (" | BYSTANDER-CHANGED" if touched else "")
+
+
 def run_nolog(w):
     return run(w, want_log=False)
 
